@@ -123,7 +123,7 @@ func (e *Env) eval(x Expr) (Val, error) {
 			return Val{T: not(v.T), S: SBool}, nil
 		}
 		if v.S == SF64 {
-			return Val{T: sx("fp.neg", v.T), S: SF64, Ty: v.Ty}, nil
+			return Val{T: sx("f.neg", v.T), S: SF64, Ty: v.Ty}, nil
 		}
 		return Val{T: sx("-", v.T), S: SInt, Ty: v.Ty}, nil
 	case *EIte:
@@ -536,7 +536,7 @@ func (e *Env) binary(x *EBinary) (Val, error) {
 		return Val{T: t, S: SBool}, nil
 	case "<", "<=", ">", ">=":
 		if a.S == SF64 && b.S == SF64 {
-			op := map[string]string{"<": "fp.lt", "<=": "fp.leq", ">": "fp.gt", ">=": "fp.geq"}[x.Op]
+			op := map[string]string{"<": "f.lt", "<=": "f.leq", ">": "f.gt", ">=": "f.geq"}[x.Op]
 			return Val{T: sx(op, a.T, b.T), S: SBool}, nil
 		}
 		if a.S != SInt || b.S != SInt {
@@ -575,7 +575,7 @@ func (e *Env) equal(a, b Val) (string, error) {
 		return "", fmt.Errorf("equality of %s and %s", a.S, b.S)
 	}
 	if a.S == SF64 {
-		return sx("fp.eq", a.T, b.T), nil
+		return sx("f.eq", a.T, b.T), nil
 	}
 	if a.S == "" {
 		t := e.g.equalTerm(a, b)
@@ -824,12 +824,12 @@ func (e *Env) call(x *ECall) (Val, error) {
 		if err := need(1); err != nil {
 			return Val{}, err
 		}
-		return Val{T: sx("fp.isInfinite", args[0].T), S: SBool}, nil
+		return Val{T: sx("f.isInf", args[0].T), S: SBool}, nil
 	case "isNaN":
 		if err := need(1); err != nil {
 			return Val{}, err
 		}
-		return Val{T: sx("fp.isNaN", args[0].T), S: SBool}, nil
+		return Val{T: sx("f.isNaN", args[0].T), S: SBool}, nil
 	}
 	if sf, ok := g.P.Contract.Specs[x.Fun]; ok {
 		if err := need(len(sf.Params)); err != nil {
